@@ -3,7 +3,7 @@
 # /root/.vp/BASELINE.json (stable_pass).  Exit 0 iff every stable_pass test passes.
 unset MEANINGFUL_DATA_VTLENGINE_VERIF
 OUT=$(mktemp /tmp/verif_base_XXXXXX.xml)
-cd /repo && /venv/bin/python -m pytest -ra -q -p no:cacheprovider --timeout=900 --continue-on-collection-errors --junitxml="$OUT" >/dev/null 2>&1
+cd "${VERIF_REPO:-/repo}" && /venv/bin/python -m pytest -ra -q -p no:cacheprovider --timeout=900 --continue-on-collection-errors --junitxml="$OUT" >/dev/null 2>&1
 /venv/bin/python - "$OUT" <<'PY'
 import json, sys, xml.etree.ElementTree as ET
 base = json.load(open('/root/.vp/BASELINE.json'))
